@@ -5546,10 +5546,14 @@ class PyCdlib:
         # Remove all of the DirectoryRecord/UDFFileEntries associated with
         # the Boot Catalog.
         for rec in self.eltorito_boot_catalog.dirrecords:
+            # A name of the catalog that was already taken away with
+            # rm_hard_link is not in its directory any more.
             if isinstance(rec, dr.DirectoryRecord):
-                num_bytes_to_remove += self._rm_dr_link(rec)
+                if rec.parent is not None and any(id(child) == id(rec) for child in rec.parent.children):
+                    num_bytes_to_remove += self._rm_dr_link(rec)
             elif isinstance(rec, udfmod.UDFFileEntry):
-                num_bytes_to_remove += self._rm_udf_link(rec)
+                if rec.parent is not None and any(id(fi_desc.file_entry) == id(rec) for fi_desc in rec.parent.fi_descs):
+                    num_bytes_to_remove += self._rm_udf_link(rec)
             else:
                 # This should never happen.
                 raise pycdlibexception.PyCdlibInternalError('Saw an El Torito record that was neither ISO nor UDF')
